@@ -104,6 +104,12 @@ func vcMessage(r *rand.Rand, i int) (proto.Message, string) {
 		m.ProtoReflect().SetUnknown([]byte{0x38, byte(r.Intn(127)), 0x4a, 0x02, 'h', 'i'})
 		return m, "unknown"
 	case 6:
+		switch r.Intn(3) {
+		case 0:
+			return wrapperspb.Bool(true), "tiny"
+		case 1:
+			return wrapperspb.Int32(int32(1 + r.Intn(100))), "tiny"
+		}
 		return wrapperspb.Int64(int64(r.Intn(1 << 30))), "int"
 	}
 	l := &structpb.ListValue{}
@@ -113,11 +119,20 @@ func vcMessage(r *rand.Rand, i int) (proto.Message, string) {
 	return l, "repeated"
 }
 
-type vcFailCodec struct{}
+// failing inner codec: returns an error together with nil, empty or partial bytes
+type vcFailCodec struct{ mode int }
 
 var vcErr = errors.New("verif: inner codec failed")
 
-func (vcFailCodec) Marshal(v interface{}) ([]byte, error)      { return nil, vcErr }
+func (c vcFailCodec) Marshal(v interface{}) ([]byte, error) {
+	switch c.mode {
+	case 1:
+		return []byte{}, vcErr
+	case 2:
+		return []byte{0x0a, 0x01, 0x78}, vcErr
+	}
+	return nil, vcErr
+}
 func (vcFailCodec) Unmarshal(data []byte, v interface{}) error { return vcErr }
 func (vcFailCodec) Name() string                               { return "fail" }
 
@@ -150,9 +165,15 @@ func TestVerifChecksum(t *testing.T) {
 	r := rand.New(rand.NewSource(seed))
 	inner := encoding.GetCodec(protoCodec.Name)
 	codec := &myCodec{protoCodec: inner}
+	type kept struct {
+		ev  *vcEvent
+		out []byte
+	}
+	var retained []kept
 	for i := 0; i < n; i++ {
 		msg, kind := vcMessage(r, i)
 		ev := vcEvent{Id: i, Kind: kind, Std: []int{}, Out: []int{}}
+		var obKeep []byte
 		func() {
 			defer func() {
 				if p := recover(); p != nil {
@@ -179,6 +200,7 @@ func TestVerifChecksum(t *testing.T) {
 				}
 			}
 			ev.Std, ev.Out = vcInts(std2), vcInts(ob)
+			obKeep = ob // not copied: the output must stay valid after later Marshal calls
 			d1 := msg.ProtoReflect().New().Interface()
 			if e := codec.Unmarshal(ob, d1); e == nil {
 				vcStripChecksum(d1)
@@ -189,11 +211,23 @@ func TestVerifChecksum(t *testing.T) {
 				vcStripChecksum(d2)
 				ev.StdOk = proto.Equal(d2, msg) && string(d2.ProtoReflect().GetUnknown()) == string(msg.ProtoReflect().GetUnknown())
 			}
-			fc := &myCodec{protoCodec: vcFailCodec{}}
-			_, e := fc.Marshal(msg)
-			ev.ErrOk = e == vcErr
+			ev.ErrOk = true
+			for mode := 0; mode < 3; mode++ {
+				fc := &myCodec{protoCodec: vcFailCodec{mode: mode}}
+				if _, e := fc.Marshal(msg); e != vcErr {
+					ev.ErrOk = false
+				}
+			}
 		}()
-		if e := enc.Encode(ev); e != nil {
+		evc := ev
+		retained = append(retained, kept{ev: &evc, out: obKeep})
+	}
+	// outputs are written out only now: one that aliases a reused buffer has been overwritten meanwhile
+	for _, k := range retained {
+		if k.out != nil {
+			k.ev.Out = vcInts(k.out)
+		}
+		if e := enc.Encode(k.ev); e != nil {
 			t.Fatal(e)
 		}
 	}
